@@ -186,6 +186,37 @@ func classifyErr(r *ssa.Return) ErrClass {
 	return classifyErrVal(resultValue(r, i), r.Block())
 }
 
+// errorOrigins counts the distinct provably non-nil error values that can reach a return of fn (through phis: a function
+// that assigns `err = …` in the arms of a switch and returns err once has as many origins as one with a return per arm).
+func errorOrigins(fn *ssa.Function) int {
+	i := errIndex(fn)
+	if i < 0 {
+		return 0
+	}
+	seen := map[ssa.Value]bool{}
+	n := 0
+	var visit func(v ssa.Value, at *ssa.BasicBlock)
+	visit = func(v ssa.Value, at *ssa.BasicBlock) {
+		if seen[v] {
+			return
+		}
+		seen[v] = true
+		if ph, ok := v.(*ssa.Phi); ok {
+			for j, e := range ph.Edges {
+				visit(e, ph.Block().Preds[j])
+			}
+			return
+		}
+		if classifyErrVal(v, at) == ErrNonNil {
+			n++
+		}
+	}
+	for _, ret := range returnsOf(fn) {
+		visit(resultValue(ret, i), ret.Block())
+	}
+	return n
+}
+
 func classifyErrVal(v ssa.Value, at *ssa.BasicBlock) ErrClass {
 	switch x := v.(type) {
 	case *ssa.Const:
@@ -302,4 +333,135 @@ func innermostLoop(loops []*Loop, b *ssa.BasicBlock) *Loop {
 		}
 	}
 	return best
+}
+
+// ---------------------------------------------------------------- path-resolved success returns
+
+// resolveOnPath follows phi nodes along a concrete path (position-aware) until a non-phi value is reached.
+func resolveOnPath(p *Path, v ssa.Value) ssa.Value {
+	for i := 0; i < 8; i++ {
+		ph, ok := v.(*ssa.Phi)
+		if !ok {
+			return v
+		}
+		at := -1
+		for j, b := range p.Blocks {
+			if b == ph.Block() {
+				at = j
+			}
+		}
+		if at < 0 {
+			return v
+		}
+		e := p.PhiEdgeAt(ph, at)
+		if e == nil {
+			return v
+		}
+		v = e
+	}
+	return v
+}
+
+// pathErrClass classifies the error result of the return that ends path p, resolving phis along the path
+// (single-exit style: `var err error; switch { … err = … }; return err`).
+func pathErrClass(p *Path) ErrClass {
+	if p.Ret == nil {
+		return ErrMaybe
+	}
+	fn := p.Ret.Parent()
+	i := errIndex(fn)
+	if i < 0 {
+		return ErrNil
+	}
+	v := resolveOnPath(p, resultValue(p.Ret, i))
+	return classifyErrVal(v, p.Ret.Block())
+}
+
+// successEscapes searches for a path from the entry of fn to a return whose error is not provably non-nil that executes no
+// instruction satisfying must. It enumerates paths (each block at most twice) and resolves the returned error per path;
+// if the enumeration is truncated it falls back to the path-insensitive reach-avoid query (conservative).
+// extra, when non-nil, restricts which returns count (e.g. "not the already-closed return").
+func successEscapes(fn *ssa.Function, must instrPred, extra func(*ssa.Return) bool) ssa.Instruction {
+	paths, trunc := enumPaths(fn.Blocks[0], walkCfg{MaxVisits: 2, MaxPaths: 30000})
+	if trunc {
+		return reachAvoid(fn, nil, func(in ssa.Instruction) bool {
+			ret, ok := in.(*ssa.Return)
+			return ok && classifyErr(ret) != ErrNonNil && (extra == nil || extra(ret))
+		}, must)
+	}
+	for _, p := range paths {
+		if p.End != EndReturn || !p.Feasible() {
+			continue
+		}
+		if extra != nil && !extra(p.Ret) {
+			continue
+		}
+		if pathErrClass(p) == ErrNonNil {
+			continue
+		}
+		hit := false
+		for _, in := range p.Instrs() {
+			if must(in) {
+				hit = true
+				break
+			}
+		}
+		if !hit {
+			return p.Ret
+		}
+	}
+	return nil
+}
+
+// alwaysDoes: every path from g's entry to a return passes an instruction satisfying must — directly, or through a
+// static call to a same-package function that always does (bounded depth). A call to such a g is as good as the
+// instruction itself for must-pass-through rules.
+func alwaysDoes(g *ssa.Function, must instrPred, depth int) bool {
+	if g == nil || len(g.Blocks) == 0 {
+		return false
+	}
+	m := liftMust(g, must, depth)
+	found := false
+	allInstrs(g, func(in ssa.Instruction) {
+		if m(in) {
+			found = true
+		}
+	})
+	if !found {
+		return false
+	}
+	return reachAvoid(g, nil, func(in ssa.Instruction) bool { _, ok := in.(*ssa.Return); return ok }, m) == nil
+}
+
+// liftMust extends must to calls of same-package functions that always perform it.
+func liftMust(fn *ssa.Function, must instrPred, depth int) instrPred {
+	memo := map[*ssa.Function]bool{}
+	return func(in ssa.Instruction) bool {
+		if must(in) {
+			return true
+		}
+		if depth <= 0 {
+			return false
+		}
+		call, ok := in.(*ssa.Call)
+		if !ok {
+			return false
+		}
+		g := staticCallee(call.Common())
+		if g == nil || g == fn || g.Pkg != fn.Pkg {
+			return false
+		}
+		if v, ok := memo[g]; ok {
+			return v
+		}
+		memo[g] = false
+		v := alwaysDoes(g, must, depth-1)
+		memo[g] = v
+		return v
+	}
+}
+
+// successEscapesWrap adapts successEscapes to the (fn, avoid) call shape.
+func successEscapesWrap(fn *ssa.Function, must instrPred) ssa.Instruction {
+	return successEscapes(fn, must, nil)
 }
